@@ -283,6 +283,15 @@ func valuesEqual(x, y any) error {
 	_, xrv, xrk := derefPtr(assertReflect(x))
 	_, yrv, yrk := derefPtr(assertReflect(y))
 
+	// nil pointers (at any depth) are equal
+	// to each other, and to nothing else.
+	if !xrv.IsValid() || !yrv.IsValid() {
+		if xrv.IsValid() != yrv.IsValid() {
+			return errorf("Nil value mismatch")
+		}
+		return nil
+	}
+
 	if tried, err := primitivesEqual(xrv, yrv); tried {
 		return err
 	}
